@@ -11,7 +11,8 @@ ID = 'C13'
 LEAN_MODULES = ['Proofs.C13']
 REQUIRED = ['C13.isGood_spec', 'C13.cv_good_iff', 'C13.good_same_partition', 'C13.cv_good_renumbers',
             'C13.container_flag_agrees', 'C13.getCycleVector_good_eq', 'C13.container_flag_agrees_getCycleVector',
-            'C13.container_flag_independent_of_options', 'C13.container_flag_is_criteria']
+            'C13.container_flag_independent_of_options', 'C13.container_flag_is_criteria',
+            'C13.isGood_mono_edge', 'C13.isGood_nil', 'C13.isGood_singleton', 'C13.isGood_head_lt_last']
 TRUSTED = ['the float constant 2*pi - phase_edge is computed by the harness with the documented expression and handed to the model exactly',
            'wrap_phase (x % 2pi) is an oracle for phases above 2pi']
 ASSUMPTIONS = ['masks are boolean arrays (the documented type)']
